@@ -2011,6 +2011,20 @@ class Interp:
         return SFunc("lambda", (node, fr))
 
     def e_ListComp(self, node, fr):
+        if len(node.generators) == 1 and not node.generators[0].ifs:
+            it = self.eval(node.generators[0].iter, fr)
+            if isinstance(it, SV):
+                it = self.view(it)
+            if isinstance(it, SSeq):
+                # [f(x) for x in <list of symbolic length>]: the element-wise image (lazy)
+                g = node.generators[0]
+                snapshot = dict(fr.locals)
+
+                def elem_fn(e):
+                    f2 = Frame(fr.module, dict(snapshot), fr.qualname, fr.cls)
+                    self.assign(g.target, e, f2)
+                    return self.eval(node.elt, f2)
+                return SSeq(it.base, it.dom, it.maps + [elem_fn])
         return SList(self._comp(node, fr, lambda f: self.eval(node.elt, f)))
 
     def e_GeneratorExp(self, node, fr):
